@@ -315,6 +315,66 @@ def d_linear_bounds(f, s, R, db):
     return None
 
 
+def d_widening_sum(f, s, R, db):
+    """total += x as usize  over the cells of one matrix row: the sum of at most K values below 2^32 cannot overflow a 64-bit accumulator
+    (K = alphabet size, at most 2^32 for every alphabet — the workspace alphabets have 5 and 21 symbols).  std's `Iterator::sum` carries
+    the same overflow check; writing the sum as a loop only makes it visible."""
+    if s['kind'] != 'assert:overflow:Add':
+        return None
+    from lm import iteralg as IA
+    t = s['term']
+    ops = t['ops']
+    pl = [o.get('m') or o.get('c') for o in ops]
+    if len(pl) != 2 or not all(p and not p['pr'] for p in pl):
+        return None
+    for acc, add in ((pl[0]['l'], pl[1]['l']), (pl[1]['l'], pl[0]['l'])):
+        if f.local_ty(acc) not in ('usize', 'u64'):
+            continue
+        ads = f.defs().get(add, [])
+        if len(ads) != 1 or ads[0][1] == 'term' or ads[0][2].get('k') != 'cast' or ads[0][2].get('ck') != 'IntToInt' or ads[0][2].get('from') not in ('u8', 'u16', 'u32'):
+            continue
+        ds = f.defs().get(acc, [])
+        if len(ds) != 2 or acc in f.borrowed_mut or f.partial.get(acc):
+            continue
+        loops_of = lambda b: [L for L in f.loops() if b in L['body']]
+        Ls = loops_of(s['block'])
+        if not Ls:
+            continue
+        L = min(Ls, key=lambda L_: len(L_['body']))
+        init = [d for d in ds if d[0] not in L['body']]
+        upd = [d for d in ds if d[0] in L['body']]
+        if len(init) != 1 or len(upd) != 1 or init[0][1] == 'term' or upd[0][1] == 'term':
+            continue
+        if norm(R.rvalue(init[0][2])) != ('k', 0):
+            continue
+        # re-initialised for every pass: the initialisation sits in exactly the loops that enclose this one
+        if {L_['header'] for L_ in loops_of(init[0][0])} != {L_['header'] for L_ in Ls} - {L['header']}:
+            continue
+        # the update stores the checked sum of this assert: acc = (acc + x).0
+        u = upd[0][2]
+        src = (u.get('a') or {}).get('m') or (u.get('a') or {}).get('c') if u.get('k') == 'use' else None
+        cond = t['cond'].get('m') or t['cond'].get('c')
+        if not (src and cond and src['l'] == cond['l']):
+            continue
+        C = IA.Canon(f, R)
+        e = C.canon(R.operand(ops[1] if acc == pl[0]['l'] else ops[0]))
+        if not (e[0] == 'at' and IA.is_pos(e[2])):
+            continue
+        ext = C.extents.get(e[2][1])
+        hdr = common.loop_of_elem(f, ('elem', None, e[2][1])) if not isinstance(e[2][1], tuple) else (e[2][1][1] if e[2][1][0] == 'while' else None)
+        if hdr != L['header'] or not (ext and len(ext) == 1 and ext[0] == ('len', e[1])):
+            continue
+        row = e[1]
+        mty = type_of(f, row[1]) if row[0] == 'at' else None
+        if not (mty and 'DenseMatrix<' in mty and 'Alphabet>::K' in mty):
+            continue
+        ks = [a_['K'] for a_ in common.alphabets(db) if a_.get('K')]
+        if ks and max(ks) < 2 ** 32:
+            return (f'widening-sum: at most K additions of values < 2^32 into a 64-bit accumulator starting from 0 '
+                    f'(one pass over a row of K cells; K <= {max(ks)} for the {len(ks)} workspace alphabets)')
+    return None
+
+
 def d_const_index(f, s, R, db):
     if s['kind'] == 'assert:bounds':
         t = s['term']
@@ -706,7 +766,7 @@ def d_wrapper_summary(f, s, R, db):
     return None
 
 
-RULES = [d_const_div, d_symbol_index, d_enumerate_of_same, d_linear_bounds, d_const_index, d_nonempty_param, d_guarded_unwrap, d_table_agreement, d_parse_line,
+RULES = [d_const_div, d_symbol_index, d_enumerate_of_same, d_linear_bounds, d_const_index, d_widening_sum, d_nonempty_param, d_guarded_unwrap, d_table_agreement, d_parse_line,
          d_wrapper_summary]
 RULES_CTX = [d_no_incomplete, d_offset_sites, d_transfac_last]
 
